@@ -41,8 +41,12 @@ CHECKS = {
         "exhaustively by TLC; both are bound to the code by compiling literal-operand programs and counting loops at the real 32-bit range. "
         "Program level: every program is compiled from the un-optimised MIR ('raw'), under the 5 switches each alone / each one off (all 32 "
         "in the thorough tier) and with every pass once in isolation (hook H3), run on both back ends, and Observations.tla (invariant C02) "
-        "accepts the record iff every build prints and ends like the reference, never crashes the compiler and never invalidates the module.",
-   note="Differential: the reference is the same compiler's un-optimised output; runs whose reference overflowed 32 bits or trapped on division are "
+        "accepts the record iff every build prints and ends like the reference, never crashes the compiler and never invalidates the module. "
+        "Absolute reference: MIR.tla, an executable semantics of the mid-level IR (parallel loop variables, nominal IsPointer, strict 32-bit "
+        "reference arithmetic), evaluates the real MIR of every build (raw, every pass alone, optimiser configurations) dumped as JSON; MIRTrace.tla "
+        "compares each build with raw and names the first differing build in pipeline order.",
+   note="Two references: the same compiler's un-optimised output run on both back ends (differential) and MIR.tla (absolute; bound to the code by "
+        "agreeing with both back ends on the raw build, disagreement = MODEL-DRIFT). Runs whose reference overflowed 32 bits or trapped on division are "
         "excluded; TypeScript builds are compared only where the two back ends agree on the reference (otherwise C04's). Trusted: wasm_interp, ts_run.",
    technique="TLA+ rule transcriptions checked exhaustively by TLC + recorded runs of compiled programs accepted by a TLA+ observation spec"),
  "C03": dict(
@@ -50,7 +54,11 @@ CHECKS = {
    text="Observations.tla (invariant C03) accepts the recorded pipeline trace of every checker-accepted program iff no build crashed the compiler, "
         "the emitted WebAssembly validates, the emitted TypeScript is syntactically valid, and both runs end in an allowed way (return, panic "
         "with a non-empty message, Vec bounds, stack exhaustion, arithmetic trap) — never in an engine type fault nor in the empty-message panic "
-        "of an unhandled match. Programs: the repository's tests, and seeded type-directed generated programs over six profiles.",
+        "of an unhandled match. Programs: the repository's tests, seeded type-directed generated programs over six profiles, a hand-written feature "
+        "corpus (corpus/c03), single-token mutants the checker accepts, and every program with one match arm deleted (rejected, or the remaining arms "
+        "must cover what reaches the match). Rule level: TypeRules.tla — a typing judgment and an evaluator for a core fragment (generic calls with "
+        "hint flow, lambdas, tuples, struct fields, enum match); TLC checks type soundness (a typed term never gets stuck) on every term up to a size "
+        "bound, and every enumerated well-typed term is compiled and run: it must validate and print the value the specification computes.",
    note="Programs are sampled (generator + repository corpus); 'valid TypeScript' = type eraser accepts + node --check; trap classification by own WasmGC interpreter.",
    technique="recorded compile-and-run traces of accepted programs judged by a TLA+ observation spec (TLC)"),
  "C04": dict(
@@ -88,7 +96,9 @@ CHECKS = {
         "TLC checks that a faulty program is refused with an error in an offending module and that nothing is emitted. The fault model is twelve "
         "mutation operators, each applied textually at every applicable site of accepted programs (generated + repository) with a construction "
         "argument that the mutant is ill-formed by the language rules (validated by re-parsing to exactly the intended tree); every mutant's recorded "
-        "pipeline trace (front verdict, error modules, artefacts from the real compile_sources) is judged by PipelineTrace.tla.",
+        "pipeline trace (front verdict, error modules, artefacts from the real compile_sources) is judged by PipelineTrace.tla. Absolute half on a core "
+        "fragment: TypeRules.tla's typing judgment classifies every small term (11 hard error kinds); a term it calls ill-typed that the checker accepts "
+        "is a violation (TypeRulesTrace.tla), a well-typed term the checker rejects is reported as drift only.",
    note="Single-fault mutants only; sites are all applicable sites in the quick corpus sample / 1500 generated programs in the thorough tier. "
         "'No code emitted' is observed on samlang_compiler::compile_sources, the function the CLI calls.",
    technique="TLA+ pipeline protocol spec + fault-model mutants of accepted programs, traces validated by TLC"),
@@ -147,7 +157,9 @@ CHECKS = {
         "SemTrace.tla accepts the recorded WebAssembly runs (un-optimised and shipped configuration) iff they print the specified lines and end the specified "
         "way, or the specified run is implementation-defined. Programs: a 35-program feature corpus, the repository's test wrappers, seeded generated programs. "
         "Rule level: EnumLayout.tla (layout choice sound for every declaration set under both processing orders; every set replayed as a program that builds "
-        "and prints all values to depth 3) and Arith.tla (WasmRefinesSrc).",
+        "and prints all values to depth 3), Arith.tla (WasmRefinesSrc) and TailRec.tla (the self-tail-recursion-to-loop rewrite and the back ends' "
+        "sequential loop-variable assignment transcribed next to the recursive semantics; TLC checks every small body incl. all argument permutations and "
+        "nested loops; every body is compiled raw / opt:0 / opt:31 and TailRecTrace.tla judges the printed lines against the specification).",
    note="Open known finding loop-opt (two loop shapes whose wrong guard is pinned by the optimiser's unit tests). Trusted: wasm_interp (own WasmGC interpreter; "
         "loader.js transcribed), the AST dump. Excluded by the specification: overflow, division by zero, toInt on non-numeric text, Vec.capacity, stack/budget "
         "exhaustion, == on separately allocated structurally equal class values. Non-ASCII text and ints beyond 31 bits in Vec stay out of the corpus.",
